@@ -528,4 +528,80 @@ def loadAndDeploy (fixed : Bool) (target : Path) (st : St) (es : List Entry) (co
   if (if fixed then validateFixed es else validateOld es) then deploy fixed target st es confIsKey
   else (st, some Err.rejected)
 
+/-! ## components, not characters
+
+The code decides "is `p` the directory `dest` or below it" on STRINGS: `realpath(dest) + "/"` must be the
+`commonprefix` of itself and `realpath(p) + "/"` (data.py, storage.py; the comment in data.py says why the
+separator is appended: `/usr/var` would match `/usr/var2`).  The model decides it on component lists (`under`).
+`underTextSep` is the string test of the code, `underText` the same test WITHOUT the separator
+(`realpath(p).startswith(realpath(dest))`) — not what the code does; `Props.C18.underTextSep_eq_under` proves
+that the former is exactly `under`, `Witness.C18` that the latter accepts a sibling whose name merely extends
+the target's name and that a deployment / extraction guarded by it writes there. -/
+
+/-- the text of a real path: `/a/b/c` (`""` for the root) -/
+def compsText : List S → S
+  | [] => []
+  | x :: r => '/' :: x ++ compsText r
+
+def pathText (p : Path) : S := compsText p.reverse
+
+/-- `commonprefix([realpath(dest) + "/", realpath(p) + "/"]) == realpath(dest) + "/"` -/
+def underTextSep (dest p : Path) : Bool := (pathText dest ++ ['/']).isPrefixOf (pathText p ++ ['/'])
+
+/-- `realpath(p).startswith(realpath(dest))` — character-wise, no separator -/
+def underText (dest p : Path) : Bool := (pathText dest).isPrefixOf (pathText p)
+
+/-- `deployOne true` with the confinement test of the guard as a parameter (`deployOneWith under = deployOne true`,
+`Props.C18.deployOneWith_under`) -/
+def deployOneWith (u : Path → Path → Bool) (target : Path) (st : St) (e : Entry) : St × Option Err :=
+  if e.key.abs then (st, some Err.rejected) else
+  if !allNames e.key.segs then (st, some Err.rejected) else
+  match splitLastSeg e.key.segs with
+  | some (parents, Seg.name s) =>
+    match walk st.fs fuel0 target parents with
+    | none => (st, some Err.rejected)
+    | some (base, rest, blocked) =>
+      if !u target (extend base rest) then (st, some Err.rejected) else
+      if blocked then (st, some Err.os) else
+      match e.method with
+      | Method.copy =>
+        match mkChain st base rest with
+        | (st1, par) =>
+          if (st1.fs.get (s :: par)).isSome then (st1, some Err.os)
+          else ({ fs := (st1.fs.put (s :: par) Node.dir).put (['f'] :: s :: par) (Node.file (['f'] :: s :: par)),
+                  log := (['f'] :: s :: par) :: (s :: par) :: st1.log }, none)
+      | Method.link =>
+        if !rest.isEmpty then (st, some Err.os)
+        else if (st.fs.get (s :: base)).isSome then (st, some Err.os)
+        else ({ fs := st.fs.put (s :: base) (Node.link true e.src), log := (s :: base) :: st.log }, none)
+  | _ => (st, some Err.os)
+
+def deployAllWith (u : Path → Path → Bool) (target : Path) : St → List Entry → St × Option Err
+  | st, [] => (st, none)
+  | st, e :: es =>
+    match deployOneWith u target st e with
+    | (st1, none) => deployAllWith u target st1 es
+    | (st1, some x) => (st1, some x)
+
+/-- the text of a member name as written in the archive -/
+def segText : Seg → S
+  | Seg.up => ['.', '.']
+  | Seg.name s => s
+
+def rawText (rp : RawPath) : S :=
+  match rp.abs, rp.segs with
+  | true, segs => compsText (segs.map segText)
+  | false, [] => []
+  | false, x :: r => segText x ++ compsText (r.map segText)
+
+/-- the name test of the extract check on strings, WITHOUT the separator after `realpath(dest)`: an absolute
+member name is accepted when its text starts with the text of `dest` -/
+def prefixOkText (dest : Path) (rp : RawPath) : Bool :=
+  if rp.abs then (pathText dest).isPrefixOf (rawText rp) else true
+
+/-- extraction guarded by the separator-less string test on names (link members judged as in `memberOk`) -/
+def stageExtractText (dest : Path) (st : St) (ms : List Member) : St × Option Err :=
+  if ms.all (fun m => prefixOkText dest m.name && allNames (below dest m.name) && linkTargetDescending m)
+  then extractAll dest st ms else (st, some Err.rejected)
+
 end St4sd.Confine
